@@ -359,11 +359,139 @@ fn sized_secrets(seed: u64, j: u64) -> HashMap<String, String> {
     m
 }
 
+
+// ---------------------------------------------------------------------------------------------
+// the file-system backend behind the adapter: it is handed the verified credentials (secret included) with every
+// request; multipart uploads remember who created them.  Signed flows of two identities - one creates an upload, the
+// other (or the same access key with a rotated secret) tries to use it - under TRACE capture; afterwards every file
+// the backend wrote is read too.
+// ---------------------------------------------------------------------------------------------
+
+fn fs_leg(r: &mut Report, seed: u64, round: u64) {
+    use crate::monitor::c17::new_runtime_real;
+    let rt = new_runtime_real();
+    let mut g = Rng::new(derive_seed(seed, "C16/fs", round));
+    let secrets = sized_secrets(seed, round);
+    let scratch = crate::store::Scratch::new("c16fs");
+    std::fs::create_dir_all(scratch.root()).expect("scratch root");
+    let cap = Capture::default();
+    let subscriber = tracing_subscriber::registry().with(cap.clone());
+    let mut responses: Vec<u8> = Vec::new();
+    let bucket = "c16-bucket";
+    let sign = |req: &mut RawRequest, ak: &str, secret: &str| {
+        let p = V4Params { access_key: ak.into(), secret: secret.into(), amz_date: unix_to_amz_date(now_unix()), region: "us-east-1".into(), service: "s3".into() };
+        let digest = sha256_hex(&req.body);
+        v4_sign_header(req, &p, &digest, &[]);
+    };
+    // the second identity: another account, or the same access key after its secret was rotated at the provider
+    let rotated = g.chance(1, 3);
+    let rotated_secret = format!("rot{}", g.alnum(40));
+    tracing::subscriber::with_default(subscriber, || {
+        let fs = match s3s_fs::FileSystem::new(scratch.root()) {
+            Ok(f) => f,
+            Err(_) => return,
+        };
+        let log = EventLog::new();
+        let svc = build_service(&auth_cfg(&secrets, HostCfg::None), fs, &log);
+        let mut secrets2 = secrets.clone();
+        secrets2.insert(AK.to_owned(), rotated_secret.clone());
+        let fs2 = s3s_fs::FileSystem::new(scratch.root()).expect("FileSystem::new");
+        let svc_rotated = build_service(&auth_cfg(&secrets2, HostCfg::None), fs2, &log);
+        let mut send = |svc: &s3s::service::S3Service, mut q: RawRequest, ak: &str, secret: &str| -> Option<RawResponse> {
+            sign(&mut q, ak, secret);
+            let out = call_raw(&rt, svc, &q);
+            let resp = out.response().cloned();
+            if let Some(x) = &resp {
+                responses.extend_from_slice(format!("{}\n", x.status).as_bytes());
+                for (k, v) in &x.headers {
+                    responses.extend_from_slice(k.as_bytes());
+                    responses.extend_from_slice(v);
+                }
+                responses.extend_from_slice(&x.body());
+            }
+            resp
+        };
+        let h = |m: &str, u: String| RawRequest::new(m, &u).header("host", "h.example");
+        send(&svc, h("PUT", format!("/{bucket}")), AK, &secrets[AK]);
+        let key = format!("k-{}", g.lower_alnum(5));
+        let mut put = h("PUT", format!("/{bucket}/{key}-plain")).header("content-length", "5").header("x-amz-meta-owner", "somebody");
+        put.body = b"hello".to_vec();
+        send(&svc, put, AK, &secrets[AK]);
+        // AK creates an upload and sends a part
+        let created = send(&svc, h("POST", format!("/{bucket}/{key}?uploads")), AK, &secrets[AK]);
+        let upload_id = created.and_then(|x| crate::oracle::xml::parse(&x.body()).ok()).and_then(|d| d.root.child_text("UploadId")).unwrap_or_default();
+        if upload_id.is_empty() {
+            return;
+        }
+        let part = |n: u32| {
+            let mut q = h("PUT", format!("/{bucket}/{key}?partNumber={n}&uploadId={upload_id}")).header("content-length", "7");
+            q.body = b"part-ab".to_vec();
+            q
+        };
+        send(&svc, part(1), AK, &secrets[AK]);
+        // somebody else (or AK after its secret was rotated) tries every operation on that upload
+        let (svc_b, ak_b, sec_b): (&s3s::service::S3Service, &str, String) = if rotated { (&svc_rotated, AK, rotated_secret.clone()) } else { (&svc, AK2, secrets[AK2].clone()) };
+        send(svc_b, part(2), ak_b, &sec_b);
+        let mut complete = h("POST", format!("/{bucket}/{key}?uploadId={upload_id}"));
+        complete.body = b"<CompleteMultipartUpload><Part><PartNumber>1</PartNumber><ETag>\"x\"</ETag></Part></CompleteMultipartUpload>".to_vec();
+        complete.headers.push(("content-length".into(), complete.body.len().to_string().into_bytes()));
+        send(svc_b, complete.clone(), ak_b, &sec_b);
+        send(svc_b, h("GET", format!("/{bucket}/{key}?uploadId={upload_id}")), ak_b, &sec_b);
+        send(svc_b, h("DELETE", format!("/{bucket}/{key}?uploadId={upload_id}")), ak_b, &sec_b);
+        send(svc_b, h("GET", format!("/{bucket}/{key}-plain")), ak_b, &sec_b);
+        // the owner completes
+        send(&svc, complete, AK, &secrets[AK]);
+        send(&svc, h("GET", format!("/{bucket}?list-type=2")), AK, &secrets[AK]);
+    });
+    let trace = cap.0.lock().unwrap().text.clone();
+    // every file under the root
+    let mut files: Vec<(String, Vec<u8>)> = Vec::new();
+    let mut stack = vec![scratch.root().to_path_buf()];
+    while let Some(d) = stack.pop() {
+        if let Ok(rd) = std::fs::read_dir(&d) {
+            for e in rd.flatten() {
+                let p = e.path();
+                if p.is_dir() {
+                    stack.push(p);
+                } else if let Ok(b) = std::fs::read(&p) {
+                    files.push((p.file_name().map(|n| n.to_string_lossy().into_owned()).unwrap_or_default(), b));
+                }
+            }
+        }
+    }
+    let mut all: Vec<(&str, &str)> = vec![(AK, secrets[AK].as_str()), (AK2, secrets[AK2].as_str())];
+    if rotated {
+        all.push(("rotated", rotated_secret.as_str()));
+    }
+    let who = if rotated { "same-key-rotated-secret" } else { "other-account" };
+    for (name, sec) in all {
+        let nd = needles(sec);
+        if let Some(form) = find(trace.as_bytes(), &nd) {
+            r.violated(format!("C16/fs-backend/trace/{form}"), json!({"kind": "fs", "seed": seed, "round": round, "whose": name, "second_identity": who, "place": "trace record while the file-system backend served signed multipart requests of two identities"}));
+            return;
+        }
+        if let Some(form) = find(&responses, &nd) {
+            r.violated(format!("C16/fs-backend/response/{form}"), json!({"kind": "fs", "seed": seed, "round": round, "whose": name, "second_identity": who, "place": "response"}));
+            return;
+        }
+        for (fname, content) in &files {
+            if let Some(form) = find(content, &nd) {
+                let class: String = fname.split('-').next().unwrap_or("").chars().filter(|c| !c.is_ascii_digit()).collect();
+                r.violated(format!("C16/fs-backend/file-in-the-store/{form}"), json!({"kind": "fs", "seed": seed, "round": round, "whose": name, "second_identity": who, "place": format!("file {fname} under the backend's root"), "file_class": class}));
+                return;
+            }
+        }
+    }
+    r.held(format!("fs-backend/multipart-of-two-identities/{who}"));
+    r.count("fs_backend_trace_bytes_scanned", trace.len() as u64);
+    r.count("fs_backend_store_files_scanned", files.len() as u64);
+}
+
 pub fn run(ctx: &RunCtx) -> i32 {
     let meta = CheckMeta {
         property: "C16",
         level: "exploration",
-        rule: "with fresh high-entropy secrets: (i)+(ii) requests of the classes of C05-C11 (valid and mutated V4 header incl. streaming uploads with intact and corrupted chunks, V4 presigned inside / outside the window, V2 header / query, POST forms valid / invalid, unknown keys, malformed Authorization) are executed under a per-run capturing tracing subscriber at TRACE (every span and event field via Visit, Debug in both {:?} and {:#?}); the response (status, headers, body, trailers, body error), the trace text and the Debug of what the backend was handed are searched for the secret, AWS4+secret, and base64 / hex / percent / Debug-escaped / byte-list encodings. (iii) Debug, pretty Debug and serde (JSON and a non-human-readable format) renderings of SecretKey, Credentials, SimpleAuth, S3Service and S3Request<T> with credentials for every input type. A positive control (a deliberately logged secret) must be found. A cell is (request class, outcome) resp. (rendered type, rendering).".into(),
+        rule: "with fresh high-entropy secrets: (i)+(ii) requests of the classes of C05-C11 (valid and mutated V4 header incl. streaming uploads with intact and corrupted chunks, V4 presigned inside / outside the window, V2 header / query, POST forms valid / invalid, unknown keys, malformed Authorization) are executed under a per-run capturing tracing subscriber at TRACE (every span and event field via Visit, Debug in both {:?} and {:#?}); the response (status, headers, body, trailers, body error), the trace text and the Debug of what the backend was handed are searched for the secret, AWS4+secret, and base64 / hex / percent / Debug-escaped / byte-list encodings. (iii) Debug, pretty Debug and serde (JSON and a non-human-readable format) renderings of SecretKey, Credentials, SimpleAuth, S3Service and S3Request<T> with credentials for every input type. A positive control (a deliberately logged secret) must be found. File-system backend leg: signed multipart flows of two identities (another account, or the same access key after its secret was rotated) through s3s-fs under TRACE capture; trace records, responses and every file the backend wrote are searched. A cell is (request class, outcome) resp. (rendered type, rendering).".into(),
         assumptions: vec!["zeroisation of key material in memory is not observed; only emitted bytes are".into()],
         min_held: 1500,
         min_cells: 25,
@@ -470,6 +598,8 @@ pub fn run(ctx: &RunCtx) -> i32 {
     });
     total.merge(rep);
     let _ = HashMap::<String, String>::new();
+    let fsl = par_run(ctx.workers, ctx.tier.sz(48, 1500), |j, r| fs_leg(r, ctx.seed, j));
+    total.merge(fsl);
     finish(ctx, &meta, &total)
 }
 
@@ -477,6 +607,7 @@ pub fn replay(v: &Value) -> i32 {
     let w = &v["witness"];
     let mut r = Report::new();
     match w["kind"].as_str().unwrap_or("") {
+        "fs" => fs_leg(&mut r, w["seed"].as_u64().unwrap_or(1), w["round"].as_u64().unwrap_or(0)),
         "rendering" => {
             let secrets = secrets(v["seed"].as_u64().unwrap_or(1));
             let mut nd = Vec::new();
